@@ -543,6 +543,9 @@ def fingerprint(c, r, key, k):
             z = r['m'].get('as_ZPK')
             if z and 'ppairs' in z and not z['ppairs'] and not z['zpairs']:
                 return '%s combine_conjugates no-conjugate-pairs float-gain' % pub
+            # the gain printed as a ratio of >= 14-digit integers: a Python float went through sympy
+            if re.search(r'\d{14,}', r['m'][key].get('str', '')):
+                return '%s combine_conjugates no-conjugate-pairs float-gain' % pub
     except Exception:
         pass
     return '%s value-changed' % pub
